@@ -228,9 +228,9 @@ Definition defined (vs : vars) (g : seg) : bool :=
 
 Theorem inline_is_expand_l : forall vs segs,
   vars_ok vs = true -> wf segs = true -> forallb (defined vs) segs = true ->
-  inline_variables vs (render segs) = inl (render (expand vs segs)).
+  inline_text vs (render segs) = inl (render (expand vs segs)).
 Proof.
-  intros vs segs V W Df. unfold inline_variables.
+  intros vs segs V W Df. unfold inline_text.
   destruct (inline_all_render vs segs V W) as [E Wf]. rewrite E.
   rewrite remaining_norefs; [reflexivity|exact Wf|].
   unfold expand. rewrite forallb_forall. intros g Hg. apply in_map_iff in Hg as (g0 & <- & Hin).
@@ -241,9 +241,9 @@ Qed.
 Theorem undefined_raises_l : forall vs pre w post,
   vars_ok vs = true -> wf (pre ++ Ref w :: post) = true ->
   forallb (defined vs) pre = true -> lookup vs w = None ->
-  inline_variables vs (render (pre ++ Ref w :: post)) = inr (upper (dollar :: w)).
+  inline_text vs (render (pre ++ Ref w :: post)) = inr (upper (dollar :: w)).
 Proof.
-  intros vs pre w post V W Df U. unfold inline_variables.
+  intros vs pre w post V W Df U. unfold inline_text.
   destruct (inline_all_render vs _ V W) as [E Wf]. rewrite E.
   unfold expand in *. rewrite map_app in *. cbn [map] in *. rewrite U in *.
   rewrite remaining_first_ref; [reflexivity|exact Wf|].
@@ -254,9 +254,9 @@ Qed.
 
 (* text without any '$' is never rewritten, whatever the variables *)
 Theorem non_reference_text_untouched_l : forall vs s, dollar_free s = true ->
-  inline_variables vs s = inl s.
+  inline_text vs s = inl s.
 Proof.
-  intros vs s D. unfold inline_variables, inline_all.
+  intros vs s D. unfold inline_text, inline_all.
   assert (E : fold_left (fun s nv => inline_one (fst nv) (snd nv) s) vs s = s).
   { induction vs as [|[n v] vs IH]; [reflexivity|]. cbn [fold_left fst snd].
     unfold inline_one at 2. pose proof (go_lit n v s [] D) as G. rewrite !app_nil_r in G. cbn in G.
@@ -305,5 +305,216 @@ Example inline_nonvacuous :
   let vs := [(lit "VAR1", lit "5"); (lit "VAR10", lit "'x y'"); (lit "A_B", lit "1 + 2")] in
   let segs := [Lit (lit "select "); Ref (lit "var10"); Lit (lit ", "); Ref (lit "Var1"); Lit (lit "+"); Ref (lit "a_b")] in
   vars_ok vs = true /\ wf segs = true /\ forallb (defined vs) segs = true /\
-  inline_variables vs (render segs) = inl (lit "select 'x y', 5+1 + 2").
+  inline_text vs (render segs) = inl (lit "select 'x y', 5+1 + 2").
 Proof. vm_compute. repeat split. Qed.
+
+(* ------------------------------------------------------------------ protected pieces: literals, quoted identifiers, comments *)
+Lemma scan_quoted_split q bs : forall s acc p rest, scan_quoted q bs s acc = Some (p, rest) -> acc ++ s = p ++ rest.
+Proof.
+  fix IH 1. intros s acc p rest. destruct s as [|x r]; cbn; [discriminate|].
+  destruct (bs && (x =? c_bs)).
+  - destruct r as [|y r']; [discriminate|]. intros H. apply IH in H. rewrite <- H, <- app_assoc. reflexivity.
+  - destruct (negb (x =? q)).
+    + intros H. apply IH in H. rewrite <- H, <- app_assoc. reflexivity.
+    + destruct r as [|y r'].
+      * intros H. injection H as <- <-. rewrite app_nil_r. reflexivity.
+      * destruct (y =? q).
+        -- intros H. apply IH in H. rewrite <- H, <- app_assoc. reflexivity.
+        -- intros H. injection H as <- <-. rewrite <- app_assoc. reflexivity.
+Qed.
+
+Lemma find2_split a b : forall s acc p rest, find2 a b s acc = Some (p, rest) -> acc ++ s = p ++ rest.
+Proof.
+  induction s as [|x r IH]; intros acc p rest; cbn; [discriminate|].
+  destruct r as [|y r']; [discriminate|]. destruct ((x =? a) && (y =? b)).
+  - intros H. injection H as <- <-. rewrite <- app_assoc. reflexivity.
+  - intros H. apply IH in H. rewrite <- H, <- app_assoc. reflexivity.
+Qed.
+
+Lemma to_eol_split : forall s acc, acc ++ s = fst (to_eol s acc) ++ snd (to_eol s acc).
+Proof.
+  induction s as [|x r IH]; intros acc; cbn; [reflexivity|].
+  destruct (x =? c_nl); [reflexivity|]. rewrite <- IH, <- app_assoc. reflexivity.
+Qed.
+
+Lemma protect_here_split s p rest : protect_here s = Some (p, rest) -> s = p ++ rest.
+Proof.
+  destruct s as [|c r]; cbn; [discriminate|].
+  destruct (c =? c_sq); [intros H; apply scan_quoted_split in H; exact H|].
+  destruct (c =? c_dq); [intros H; apply scan_quoted_split in H; exact H|].
+  destruct r as [|d r']; [discriminate|].
+  destruct ((c =? dollar) && (d =? dollar)); [intros H; apply find2_split in H; exact H|].
+  destruct ((c =? c_dash) && (d =? c_dash)).
+  - intros H. injection H as H. pose proof (to_eol_split r' [c; d]) as T. rewrite H in T. exact T.
+  - destruct ((c =? c_slash) && (d =? c_star)); [intros H; apply find2_split in H; exact H|discriminate].
+Qed.
+
+(* cutting loses and invents nothing: the pieces, in order, are the text *)
+Theorem split_concat_l : forall s, concat (map snd (split_protected s)) = s.
+Proof.
+  assert (G : forall fuel s acc, concat (map snd (split_fuel fuel s acc)) = acc ++ s).
+  { induction fuel as [|f IH]; intros s acc; cbn [split_fuel]; [cbn; rewrite app_nil_r; reflexivity|].
+    destruct s as [|c r]; [cbn; rewrite !app_nil_r; reflexivity|].
+    destruct (protect_here (c :: r)) as [[p rest]|] eqn:E.
+    - cbn [map snd concat]. rewrite IH. cbn [app]. apply protect_here_split in E. rewrite E. reflexivity.
+    - rewrite IH. rewrite <- app_assoc. reflexivity. }
+  intros s. unfold split_protected. rewrite G. reflexivity.
+Qed.
+
+(* more fuel than characters changes nothing *)
+Lemma scan_quoted_acc q bs : forall s acc p rest, scan_quoted q bs s acc = Some (p, rest) -> (length acc <= length p)%nat.
+Proof.
+  fix IH 1. intros s acc p rest. destruct s as [|x r]; cbn; [discriminate|].
+  destruct (bs && (x =? c_bs)).
+  - destruct r as [|y r']; [discriminate|]. intros H. apply IH in H. rewrite app_length in H. lia.
+  - destruct (negb (x =? q)).
+    + intros H. apply IH in H. rewrite app_length in H. lia.
+    + destruct r as [|y r'].
+      * intros H. injection H as <- <-. rewrite app_length. lia.
+      * destruct (y =? q).
+        -- intros H. apply IH in H. rewrite app_length in H. lia.
+        -- intros H. injection H as <- <-. rewrite app_length. lia.
+Qed.
+Lemma find2_acc a b : forall s acc p rest, find2 a b s acc = Some (p, rest) -> (length acc <= length p)%nat.
+Proof.
+  induction s as [|x r IH]; intros acc p rest; cbn; [discriminate|].
+  destruct r as [|y r']; [discriminate|]. destruct ((x =? a) && (y =? b)).
+  - intros H. injection H as <- <-. rewrite app_length. lia.
+  - intros H. apply IH in H. rewrite app_length in H. lia.
+Qed.
+Lemma to_eol_acc : forall s acc, (length acc <= length (fst (to_eol s acc)))%nat.
+Proof.
+  induction s as [|x r IH]; intros acc; cbn; [lia|]. destruct (x =? c_nl); [cbn; lia|].
+  specialize (IH (acc ++ [x])). rewrite app_length in IH. lia.
+Qed.
+
+Lemma protect_here_shorter s p rest : protect_here s = Some (p, rest) -> (length rest < length s)%nat.
+Proof.
+  intros H. pose proof (protect_here_split _ _ _ H) as E. subst s. rewrite app_length.
+  assert (P : (0 < length p)%nat); [|lia].
+  destruct (p ++ rest) as [|c r] eqn:S0; cbn in H; [discriminate|].
+  destruct (c =? c_sq); [apply scan_quoted_acc in H; cbn in H; lia|].
+  destruct (c =? c_dq); [apply scan_quoted_acc in H; cbn in H; lia|].
+  destruct r as [|d r']; [discriminate|].
+  destruct ((c =? dollar) && (d =? dollar)); [apply find2_acc in H; cbn in H; lia|].
+  destruct ((c =? c_dash) && (d =? c_dash)).
+  - injection H as H. pose proof (to_eol_acc r' [c; d]) as T. rewrite H in T. cbn in T. lia.
+  - destruct ((c =? c_slash) && (d =? c_star)); [apply find2_acc in H; cbn in H; lia|discriminate].
+Qed.
+
+Lemma split_fuel_enough : forall n s f acc, (length s <= n)%nat -> (length s < f)%nat -> split_fuel f s acc = split_fuel (S (length s)) s acc.
+Proof.
+  induction n as [|n IH]; intros s f acc Hn Hf.
+  - destruct s; [|cbn in Hn; lia]. destruct f; [cbn in Hf; lia|]. reflexivity.
+  - destruct f as [|f]; [lia|]. destruct s as [|c r]; [reflexivity|].
+    change (split_fuel (S (length (c :: r))) (c :: r) acc) with
+      (match protect_here (c :: r) with
+       | Some (p, rest) => (false, acc) :: (true, p) :: split_fuel (S (length r)) rest []
+       | None => split_fuel (S (length r)) r (acc ++ [c]) end).
+    change (split_fuel (S f) (c :: r) acc) with
+      (match protect_here (c :: r) with
+       | Some (p, rest) => (false, acc) :: (true, p) :: split_fuel f rest []
+       | None => split_fuel f r (acc ++ [c]) end).
+    destruct (protect_here (c :: r)) as [[p rest]|] eqn:E.
+    + pose proof (protect_here_shorter _ _ _ E) as L. cbn [length] in L, Hn, Hf.
+      rewrite (IH rest f []) by lia. rewrite (IH rest (S (length r)) []) by lia. reflexivity.
+    + cbn [length] in Hn, Hf. rewrite (IH r f) by lia. reflexivity.
+Qed.
+
+(* text in which no protected piece can start: no quote, no '-', no '/', no '$$' *)
+Fixpoint plainb (s : str) : bool :=
+  match s with
+  | [] => true
+  | c :: r => negb (c =? c_sq) && negb (c =? c_dq) && negb (c =? c_dash) && negb (c =? c_slash)
+              && (negb (c =? dollar) || match r with d :: _ => negb (d =? dollar) | [] => true end) && plainb r
+  end.
+
+Lemma split_plain_prefix : forall pre rest f acc, plainb pre = true ->
+  (match rest with d :: _ => d <> dollar | [] => True end) -> (length (pre ++ rest) < f)%nat ->
+  split_fuel f (pre ++ rest) acc = split_fuel (f - length pre) rest (acc ++ pre).
+Proof.
+  induction pre as [|c r IH]; intros rest f acc P Hd Hf.
+  - cbn. rewrite app_nil_r, Nat.sub_0_r. reflexivity.
+  - cbn [plainb] in P. repeat (apply andb_true_iff in P; destruct P as [P ?]).
+    destruct f as [|f]; [cbn in Hf; lia|]. cbn [app split_fuel].
+    assert (N : protect_here (c :: r ++ rest) = None).
+    { cbn. apply negb_true_iff in P. rewrite P.
+      match goal with H : negb (c =? c_dq) = true |- _ => apply negb_true_iff in H; rewrite H end.
+      destruct (r ++ rest) as [|d t] eqn:E; [reflexivity|].
+      assert (D : (c =? dollar) && (d =? dollar) = false).
+      { destruct (c =? dollar) eqn:Cd; [|reflexivity]. cbn.
+        match goal with H : negb true || _ = true |- _ => cbn in H end.
+        destruct r as [|d' r']; cbn in E.
+        - subst rest. apply Z.eqb_neq. exact Hd.
+        - injection E as -> _. match goal with H : negb (d =? dollar) = true |- _ => apply negb_true_iff in H; exact H end. }
+      rewrite D.
+      match goal with H : negb (c =? c_dash) = true |- _ => apply negb_true_iff in H; rewrite H end.
+      match goal with H : negb (c =? c_slash) = true |- _ => apply negb_true_iff in H; rewrite H end.
+      reflexivity. }
+    rewrite N. cbn in Hf. rewrite IH by (assumption || lia). cbn [length]. rewrite <- app_assoc. reflexivity.
+Qed.
+
+(* a complete single-quoted literal without quotes or backslashes inside is one protected piece *)
+Lemma scan_plain_body : forall body acc rest, forallb (fun c => negb (c =? c_sq) && negb (c =? c_bs)) body = true ->
+  (match rest with d :: _ => d <> c_sq | [] => True end) ->
+  scan_quoted c_sq true (body ++ c_sq :: rest) acc = Some (acc ++ body ++ [c_sq], rest).
+Proof.
+  induction body as [|x r IH]; intros acc rest B Hr.
+  - cbn. destruct rest as [|d t]; [reflexivity|]. destruct (d =? c_sq) eqn:E; [apply Z.eqb_eq in E; contradiction|reflexivity].
+  - cbn [forallb] in B. apply andb_true_iff in B. destruct B as [Bx Br]. apply andb_true_iff in Bx. destruct Bx as [B1 B2].
+    cbn [app scan_quoted]. apply negb_true_iff in B2. rewrite B2. cbn [andb]. rewrite B1.
+    rewrite IH by assumption. rewrite <- !app_assoc. reflexivity.
+Qed.
+
+Definition sq_literal (body : str) : str := c_sq :: body ++ [c_sq].
+
+(* THE statement about literals: whatever precedes (plain SQL text, with any variable references) and follows, a string literal
+   is handed on character for character - a '$name' inside it is neither substituted nor reported as undefined - and the text
+   before it is processed exactly as if it stood alone *)
+Theorem literal_protected_l : forall vs pre body post, plainb pre = true ->
+  forallb (fun c => negb (c =? c_sq) && negb (c =? c_bs)) body = true ->
+  (match post with d :: _ => d <> c_sq | [] => True end) ->
+  inline_variables vs (pre ++ sq_literal body ++ post) =
+  match inline_text vs pre with
+  | inr e => inr e
+  | inl p' => match inline_variables vs post with inl o => inl (p' ++ sq_literal body ++ o) | inr e => inr e end
+  end.
+Proof.
+  intros vs pre body post P B Hp. unfold inline_variables, split_protected.
+  assert (Hd : match sq_literal body ++ post with d :: _ => d <> dollar | [] => True end) by (cbn; unfold c_sq, dollar; lia).
+  rewrite (split_plain_prefix pre (sq_literal body ++ post) _ [] P Hd) by lia.
+  cbn [app]. rewrite app_length. 
+  replace (S (length pre + length (sq_literal body ++ post)) - length pre)%nat with (S (length (sq_literal body ++ post))) by lia.
+  change (split_fuel (S (length (sq_literal body ++ post))) (sq_literal body ++ post) pre) with
+    (match protect_here (sq_literal body ++ post) with
+     | Some (p, rest) => (false, pre) :: (true, p) :: split_fuel (length (sq_literal body ++ post)) rest []
+     | None => split_fuel (length (sq_literal body ++ post)) (tl (sq_literal body ++ post)) (pre ++ [c_sq]) end).
+  assert (PH : protect_here (sq_literal body ++ post) = Some (sq_literal body, post)).
+  { unfold sq_literal. cbn [app protect_here]. rewrite Z.eqb_refl. rewrite <- app_assoc. cbn [app].
+    rewrite (scan_plain_body body [c_sq] post B Hp). reflexivity. }
+  rewrite PH. cbn [inline_pieces].
+  rewrite (split_fuel_enough (length post) post (length (sq_literal body ++ post)) []) by (try lia; rewrite app_length; unfold sq_literal; cbn; lia).
+  destruct (inline_text vs pre) as [p'|e]; [|reflexivity].
+  destruct (inline_pieces vs (split_fuel (S (length post)) post [])) as [o|e]; reflexivity.
+Qed.
+
+(* the reported defect, for EVERY set of variables: select 'cost $5' is executed as written *)
+Example cost_literal_untouched_l : forall vs, inline_variables vs (lit "select 'cost $5'") = inl (lit "select 'cost $5'").
+Proof.
+  intros vs. change (lit "select 'cost $5'") with (lit "select " ++ sq_literal (lit "cost $5") ++ []).
+  rewrite literal_protected_l; [|reflexivity|reflexivity|exact I].
+  rewrite (non_reference_text_untouched_l vs (lit "select ")) by reflexivity.
+  assert (E : inline_variables vs [] = inl []).
+  { unfold inline_variables, split_protected. cbn [length split_fuel inline_pieces].
+    rewrite (non_reference_text_untouched_l vs []) by reflexivity. reflexivity. }
+  rewrite E. reflexivity.
+Qed.
+
+(* on SQL text proper (nothing that could start a literal, quoted identifier or comment) the whole statement is one piece *)
+Theorem plain_is_text_l : forall vs s, plainb s = true -> inline_variables vs s = inline_text vs s.
+Proof.
+  intros vs s P. unfold inline_variables, split_protected.
+  pose proof (split_plain_prefix s [] (S (length s)) [] P I) as H. rewrite app_nil_r in H. rewrite H by lia.
+  replace (S (length s) - length s)%nat with 1%nat by lia. cbn [app split_fuel inline_pieces].
+  destruct (inline_text vs s) as [t|e]; [rewrite app_nil_r|]; reflexivity.
+Qed.
